@@ -15,8 +15,9 @@ from checks import dagexec_p1, seqexec  # noqa
 
 def qr_program(rng):
     import numpy as np
-    r, c = rng.choice([(8, 4), (12, 4), (16, 3), (8, 2)])
-    rc = rng.choice([c, c + 1, 2 * c, r, max(1, c - 1)])
+    c = rng.choice([2, 3, 4])
+    r = rng.randint(c + 1, 16)
+    rc = rng.randint(max(1, c - 1), r)
     inp = dict(shape=[r, c], chunks=[rc, c], dtype="float64", seed=rng.randint(0, 9), pattern="lin", src="asarray")
     prog = dict(inputs=[inp], steps=[dict(op="qr", args=[0])], outs=[1, 2], family="qr")
     return prog
